@@ -83,6 +83,9 @@ fn sbom_format(i: u64) -> SbomFormat {
 
 /// per layer name: dir tree, toml content, sbom files; plus unexpected entries
 pub fn abstract_store(layers: &Path, names: &[String]) -> Value {
+    if std::env::var_os("VERIF_NO_SNAPSHOT").is_some() {
+        return Value::Null; // fault-injection child: the parent takes the snapshot
+    }
     let mut out = serde_json::Map::new();
     let mut expected: Vec<String> = vec![];
     for n in names {
@@ -186,20 +189,14 @@ fn err_json<E: std::fmt::Debug>(e: &libcnb::Error<E>) -> Value {
     json!({"err": k, "text": format!("{e:?}").chars().take(200).collect::<String>()})
 }
 
-pub fn run(case: &Value) -> Value {
-    let root = fsutil::sandbox(&case["id"]);
-    let layers = root.join("layers");
-    let scratch = root.join("scratch");
-    std::fs::create_dir_all(&layers).unwrap();
-    std::fs::create_dir_all(&scratch).unwrap();
-    let names: Vec<String> = case["names"].as_array().unwrap().iter().map(string_of).collect();
-    let ctx = context(&layers);
-    let mut steps = vec![];
-    for (opi, op) in case["ops"].as_array().unwrap().iter().enumerate() {
+/// one operation of a history; returns what was observed
+pub fn step(ctx: &BuildContext<TestBp>, layers: &Path, scratch: &Path, names: &[String], opi: usize, op: &Value) -> Value {
+    let layers = layers.to_path_buf();
+    let scratch = scratch.to_path_buf();
         match op["op"].as_str().unwrap() {
             "restore" => {
                 restore(&layers, &names);
-                steps.push(json!({"post": abstract_store(&layers, &names)}));
+                return json!({"post": abstract_store(&layers, &names)});
             }
             "corrupt" => {
                 let tp = layers.join(format!("{}.toml", string_of(&op["n"])));
@@ -208,7 +205,7 @@ pub fn run(case: &Value) -> Value {
                 } else {
                     std::fs::write(&tp, bytes_of(&op["content"])).unwrap();
                 }
-                steps.push(json!({"post": abstract_store(&layers, &names)}));
+                return json!({"post": abstract_store(&layers, &names)});
             }
             "req" => {
                 let name = LayerName::from_str(&string_of(&op["n"])).unwrap();
@@ -339,10 +336,23 @@ pub fn run(case: &Value) -> Value {
                         writes.push(json!({"ok": r.is_ok(), "err": r.err(), "post": abstract_store(&layers, &names)}));
                     }
                 }
-                steps.push(json!({"res": res, "calls": calls.into_inner(), "post": post, "writes": writes}));
+                return json!({"res": res, "calls": calls.into_inner(), "post": post, "writes": writes});
             }
             other => panic!("unknown op {other}"),
         }
+}
+
+pub fn run(case: &Value) -> Value {
+    let root = fsutil::sandbox(&case["id"]);
+    let layers = root.join("layers");
+    let scratch = root.join("scratch");
+    std::fs::create_dir_all(&layers).unwrap();
+    std::fs::create_dir_all(&scratch).unwrap();
+    let names: Vec<String> = case["names"].as_array().unwrap().iter().map(string_of).collect();
+    let ctx = context(&layers);
+    let mut steps = vec![];
+    for (opi, op) in case["ops"].as_array().unwrap().iter().enumerate() {
+        steps.push(step(&ctx, &layers, &scratch, &names, opi, op));
     }
     fsutil::destroy(&root);
     json!({"id": case["id"], "steps": steps})
